@@ -1,4 +1,5 @@
 import Tengo.Proofs.JsonAccept
+import Tengo.Proofs.JsonUnquote
 /-!
 C18, "grammar ⇒ decoder": on a text of the grammar the decoder (`value` / `array` / `object` /
 `literal` driven by the scanner's opcodes) never reaches a phase panic, does not run out of the fuel
@@ -533,7 +534,6 @@ theorem member_step (pf : Bytes → UInt64) {w1 k w2 w3 t w4 : Bytes} {v : J} (h
            | .panic w => .panic w
            | .outOfFuel => .outOfFuel) := by
   simp only [objectLoop]
-  trace_state
   -- the opening quote of the key
   have hdel : delta st0 (.objKey :: σ) 0x22 = goTo .inString (.objKey :: σ) .beginLiteral := by
     rcases hst0 with rfl | rfl <;> simp [delta, stateBeginString, stateBeginStringOrEmpty, isSpace]
@@ -548,7 +548,8 @@ theorem member_step (pf : Bytes → UInt64) {w1 k w2 w3 t w4 : Bytes} {v : J} (h
       d.scan d.last hs.clean hs.step hs.stack
     rw [hdel] at this
     unfold DState.scanWhile; rw [hs.rest]; exact this
-  generalize (d.scanWhile .skipSpace).2.2 = d1 at h1
+  generalize (d.scanWhile .skipSpace).2.2 = d1 at h1 ⊢
+  simp only [h1.op, reduceCtorEq, if_false, ne_eq, not_true_eq_false]
   -- the key
   have hcolon : stateEndValue (.objKey :: σ) 0x3A = goTo .beginValue (.objVal :: σ) .objectKey := by
     simp [stateEndValue, isSpace]
@@ -557,20 +558,21 @@ theorem member_step (pf : Bytes → UInt64) {w1 k w2 w3 t w4 : Bytes} {v : J} (h
   have hkey := scanWhile_conts (.objKey :: σ) (k ++ [0x22]) c1 rest1 .inString .endValue d1.scan d1.last
     (conts_strBody _ hk) (endValue_op_ne _ c1) hnec1 h1.clean h1.step h1.stack
   have hrest1 : d1.rest = (k ++ [0x22]) ++ c1 :: rest1 := by rw [h1.rest, ← hcr1]; simp
-  have hk2 : d1.scanWhile .continue_ =
-      (k ++ [0x22], ((k ++ [0x22]) ++ [c1]).any isFloatByte, (d1.scanWhile .continue_).2.2) := by
+  have hk2 : (d1.scanWhile .continue_).1 = k ++ [0x22] := by
     unfold DState.scanWhile
     rw [hrest1]
-    exact Prod.ext hkey.1 (Prod.ext hkey.2.1 rfl)
+    exact hkey.1
   have h2 : SeesAfter (d1.scanWhile .continue_).2.2 (.objKey :: σ) c1 rest1 := by
     unfold DState.scanWhile; rw [hrest1]; exact hkey.2.2
-  generalize (d1.scanWhile .continue_).2.2 = d2 at hk2 h2
+  simp only [hk2]
+  generalize (d1.scanWhile .continue_).2.2 = d2 at h2 ⊢
   have hu : unquote (d1.last :: (k ++ [0x22])) = some (strDen k) := by
     rw [h1.last]
     unfold strDen
     cases h : unquote (quote k) with
     | none => rw [h] at hq; simp at hq
     | some s => simpa [quote] using h
+  simp only [hu]
   -- the colon
   have h3 := after_value_ws .objKey σ w2 hw2 0x3A (w3 ++ (t ++ (w4 ++ p :: rest))) d2 (by rw [hcolon]; simp [goTo])
     (by rw [hcolon]; simp [goTo]) (by
@@ -581,7 +583,8 @@ theorem member_step (pf : Bytes → UInt64) {w1 k w2 w3 t w4 : Bytes} {v : J} (h
   unfold SeesAfter at h3
   rw [hcolon] at h3
   simp only [goTo] at h3
-  generalize (if d2.opcode = .skipSpace then (d2.scanWhile .skipSpace).2.2 else d2) = d3 at h3
+  generalize (if d2.opcode = .skipSpace then (d2.scanWhile .skipSpace).2.2 else d2) = d3 at h3 ⊢
+  simp only [h3.op, ne_eq, not_true_eq_false, if_false]
   -- the value
   obtain ⟨c0, t', rfl, hc0⟩ := val_start hv
   obtain ⟨b1, b2, _, _⟩ := valStart_begin (.objVal :: σ) c0 hc0
@@ -590,7 +593,7 @@ theorem member_step (pf : Bytes → UInt64) {w1 k w2 w3 t w4 : Bytes} {v : J} (h
     have := scanWhile_ws .beginValue (.objVal :: σ) (slo_beginValue _) w3 hw3 c0 (t' ++ (w4 ++ p :: rest)) b2 b1
       d3.scan d3.last h3.clean h3.step h3.stack
     unfold DState.scanWhile; rw [h3.rest]; exact this
-  generalize (d3.scanWhile .skipSpace).2.2 = d4 at h4
+  generalize (d3.scanWhile .skipSpace).2.2 = d4 at h4 ⊢
   obtain ⟨c, rest0, hcr, hfc, hnec⟩ := next_byte .objVal σ w4 hw4 p rest hp hne
   rw [hcr] at h4
   obtain ⟨d5, hval, hd5⟩ := ih.1 c0 t' rfl (.objVal :: σ) c rest0 f' d4 hfc hnec hfuel h4
@@ -599,7 +602,101 @@ theorem member_step (pf : Bytes → UInt64) {w1 k w2 w3 t w4 : Bytes} {v : J} (h
     rw [hcr] at he
     cases he
     exact hd5)
-  refine ⟨_, h6, ?_⟩
-  sorry
+  simp only [hval]
+  exact ⟨_, h6, rfl⟩
+
+theorem spec_members_one (pf : Bytes → UInt64) {w1 k w2 w3 t w4 : Bytes} {v : J} (hw1 : WS w1) (hk : StrBody k) (hw2 : WS w2)
+    (hw3 : WS w3) (hv : Val pf t v) (hw4 : WS w4) (ih : SpecVal pf t v) (hq : (unquote (quote k)).isSome = true) :
+    SpecMembers pf (w1 ++ quote k ++ w2 ++ 0x3A :: w3 ++ t ++ w4) (.cons (strDen k) v .nil) := by
+  intro σ rest f d st0 l op0 hst0 hfuel hs
+  simp only [quote, List.append_assoc, List.cons_append, List.nil_append] at hs
+  simp only [List.length_append, List.length_cons] at hfuel
+  obtain ⟨f', rfl⟩ : ∃ f', f = f' + 1 := ⟨f - 1, by omega⟩
+  have hpop : stateEndValue (.objVal :: σ) 0x7D = popTo σ .endObject := by simp [stateEndValue, isSpace]
+  have hopp : (popTo σ .endObject).op = .endObject := by cases σ <;> simp [popTo, goTo]
+  obtain ⟨d6, h6, hloop⟩ := member_step pf hw1 hk hw2 hw3 hv hw4 ih hq σ 0x7D rest f' d st0 l op0 hst0 follow_punct.2.1
+    (by rw [hpop, hopp]; decide) (by rw [hpop]; exact popTo_ne _ _) (by omega) hs
+  unfold SeesAfter at h6
+  rw [hpop, hopp] at h6
+  refine ⟨d6, ?_, h6⟩
+  rw [hloop]
+  simp only [h6.op, if_true]
+
+theorem spec_members_more (pf : Bytes → UInt64) {w1 k w2 w3 t w4 : Bytes} {v : J} {m : Bytes} {es : JMems} (hw1 : WS w1)
+    (hk : StrBody k) (hw2 : WS w2) (hw3 : WS w3) (hv : Val pf t v) (hw4 : WS w4) (ih : SpecVal pf t v)
+    (ihm : SpecMembers pf m es) (hq : (unquote (quote k)).isSome = true) :
+    SpecMembers pf (w1 ++ quote k ++ w2 ++ 0x3A :: w3 ++ t ++ w4 ++ 0x2C :: m) (.cons (strDen k) v es) := by
+  intro σ rest f d st0 l op0 hst0 hfuel hs
+  simp only [quote, List.append_assoc, List.cons_append, List.nil_append] at hs
+  simp only [List.length_append, List.length_cons] at hfuel
+  obtain ⟨f', rfl⟩ : ∃ f', f = f' + 1 := ⟨f - 1, by omega⟩
+  have hcomma : stateEndValue (.objVal :: σ) 0x2C = goTo .beginString (.objKey :: σ) .objectValue := by
+    simp [stateEndValue, isSpace]
+  obtain ⟨d6, h6, hloop⟩ := member_step pf hw1 hk hw2 hw3 hv hw4 ih hq σ 0x2C (m ++ 0x7D :: rest) f' d st0 l op0 hst0
+    follow_punct.2.2.1 (by rw [hcomma]; simp [goTo]) (by rw [hcomma]; simp [goTo]) (by omega) hs
+  unfold SeesAfter at h6
+  rw [hcomma] at h6
+  simp only [goTo] at h6
+  obtain ⟨d7, hl7, hd7⟩ := ihm σ rest f' d6 .beginString _ _ (.inl rfl) (by omega) h6
+  refine ⟨d7, ?_, hd7⟩
+  rw [hloop]
+  simp only [h6.op, reduceCtorEq, if_false, ne_eq, not_true_eq_false, hl7]
+
+/-- **Grammar ⇒ decoder.** On every text of the grammar `value`/`arrayLoop`/`objectLoop` succeed
+(no phase panic, enough fuel) with the value the text denotes, provided string tokens unquote. -/
+theorem spec_all (pf : Bytes → UInt64) (hq : ∀ b, StrBody b → (unquote (quote b)).isSome = true) :
+    (∀ {t v}, Val pf t v → SpecVal pf t v) ∧ (∀ {e xs}, Elems pf e xs → SpecElems pf e xs) ∧
+    (∀ {m es}, Members pf m es → SpecMembers pf m es) := by
+  apply grammar_induction (P1 := SpecVal pf) (P2 := SpecElems pf) (P3 := SpecMembers pf)
+  · exact spec_null pf
+  · exact spec_true pf
+  · exact spec_false pf
+  · intro t hn; exact spec_num pf hn
+  · intro b hb; exact spec_str pf hb (hq b hb)
+  · intro w hw; exact spec_arrEmpty pf hw
+  · intro e xs _ ih
+    exact spec_array pf e xs (fun σ rest f d hf hs => ih σ rest f d .beginValueOrEmpty _ _ (.inr rfl) hf hs)
+  · intro w hw; exact spec_objEmpty pf hw
+  · intro m es _ ih
+    exact spec_object pf m es (fun σ rest f d hf hs => ih σ rest f d .beginStringOrEmpty _ _ (.inr rfl) hf hs)
+  · intro w1 t w2 v hw1 hv hw2 ih; exact spec_elems_one pf hw1 hv hw2 ih
+  · intro w1 t w2 v e xs hw1 hv hw2 _ ih ihe; exact spec_elems_more pf hw1 hv hw2 ih ihe
+  · intro w1 k w2 w3 t w4 v hw1 hk hw2 hw3 hv hw4 ih; exact spec_members_one pf hw1 hk hw2 hw3 hv hw4 ih (hq k hk)
+  · intro w1 k w2 w3 t w4 v m es hw1 hk hw2 hw3 hv hw4 _ ih ihm
+    exact spec_members_more pf hw1 hk hw2 hw3 hv hw4 ih ihm (hq k hk)
+
+/-! ### `Decode` on a text of the grammar -/
+
+theorem clean_reset (s : Scanner) : Clean s.reset ∧ s.reset.step = .beginValue ∧ s.reset.stack = [] := by
+  simp [Scanner.reset, Clean]
+
+/-- **Grammar ⇒ `Decode`.** A JSON text decodes — no syntax error, no phase panic, within the fuel
+`decode` provides — to the value it denotes. -/
+theorem decode_json (pf : Bytes → UInt64) {b : Bytes} {v : J} (h : Json pf b v) : decode pf b = .ok v := by
+  have hacc := json_accB h
+  obtain ⟨sc, hsc⟩ := (checkValid_iff_accB b).mpr hacc
+  obtain ⟨w1, t, w2, rfl, hw1, hv, hw2⟩ := h
+  obtain ⟨c0, t', rfl, hc0⟩ := val_start hv
+  obtain ⟨b1, b2, _, _⟩ := valStart_begin [] c0 hc0
+  obtain ⟨hclean, hstep, hstack⟩ := clean_reset sc
+  have hspec := (spec_all pf (fun b hb => Tengo.Proofs.JsonUnquote.unquote_total b hb)).1 hv
+  have hsee := scanWhile_ws .beginValue [] (slo_beginValue []) w1 hw1 c0 (t' ++ w2) b2 b1 sc.reset 0 hclean hstep hstack
+  have hfuel : 2 * (c0 :: t').length ≤ decodeFuel (w1 ++ c0 :: t' ++ w2) := by
+    simp [decodeFuel]; omega
+  unfold decode
+  rw [hsc]
+  simp only
+  have hlist : w1 ++ c0 :: t' ++ w2 = w1 ++ c0 :: (t' ++ w2) := by simp
+  rw [hlist] at hfuel ⊢
+  cases w2 with
+  | nil =>
+    simp only [List.append_nil] at hsee hfuel ⊢
+    obtain ⟨d', hd'⟩ := hspec.2 c0 t' rfl [] _ _ hfuel hsee
+    rw [hd']
+  | cons c r =>
+    have hc := hw2 c (by simp)
+    have hne : (stateEndValue [] c).step ≠ .error := by simp [stateEndValue, stateEndTop, hc, goTo]
+    obtain ⟨d', hd', _⟩ := hspec.1 c0 t' rfl [] c r _ _ (follow_space c hc) hne hfuel hsee
+    rw [hd']
 
 end Tengo.Proofs.JsonDecode
